@@ -60,9 +60,9 @@ open GoldilocksVerif
 @[inline] def set_epi64 (e7 e6 e5 e4 e3 e2 e1 e0 : BitVec 64) : V8 := ⟨e0, e1, e2, e3, e4, e5, e6, e7⟩
 @[inline] def set4_epi64 (d c b a : BitVec 64) : V8 := ⟨a, b, c, d, a, b, c, d⟩
 @[inline] def set1_epi64 (e : BitVec 64) : V8 := ⟨e, e, e, e, e, e, e, e⟩
-@[inline] def load (r : Region) : V8 := ⟨r 0, r 1, r 2, r 3, r 4, r 5, r 6, r 7⟩
-@[inline] def store (r : Region) (v : V8) : Region :=
-  fun j => if j = 0 then v.l0 else if j = 1 then v.l1 else if j = 2 then v.l2 else if j = 3 then v.l3
-    else if j = 4 then v.l4 else if j = 5 then v.l5 else if j = 6 then v.l6 else if j = 7 then v.l7 else r j
+def load (r : Region) : V8 := ⟨r 0, r 1, r 2, r 3, r 4, r 5, r 6, r 7⟩
+def store (r : Region) (v : V8) : Region :=
+  ⟨fun j => if j = 0 then v.l0 else if j = 1 then v.l1 else if j = 2 then v.l2 else if j = 3 then v.l3
+    else if j = 4 then v.l4 else if j = 5 then v.l5 else if j = 6 then v.l6 else if j = 7 then v.l7 else r j⟩
 
 end GoldilocksVerif.Avx512
